@@ -23,8 +23,70 @@ func init() {
 
 // ---------------- C14 ----------------
 
+// An option variable: a local cell, or a field of a local struct
+// (`opts.threshold`). Comparable.
+type fieldVarKey struct {
+	Cell  *ssa.Alloc
+	Field int
+}
+
+// varKey names the variable behind an address (nil if it is not a local
+// variable or a field of one).
+func (c *Ctx) varKey(addr ssa.Value) interface{} {
+	switch x := addr.(type) {
+	case *ssa.Alloc:
+		return x
+	case *ssa.FreeVar:
+		if cell := c.cellOf(x); cell != nil {
+			return cell
+		}
+	case *ssa.FieldAddr:
+		base := c.resolve(x.X)
+		if cell := c.cellOf(base); cell != nil {
+			return fieldVarKey{cell, x.Field}
+		}
+	}
+	return nil
+}
+
+func varKeyName(k interface{}) string {
+	switch x := k.(type) {
+	case *ssa.Alloc:
+		return x.Comment
+	case fieldVarKey:
+		name := fmt.Sprintf("#%d", x.Field)
+		if st, ok := x.Cell.Type().Underlying().(*types.Pointer).Elem().Underlying().(*types.Struct); ok && x.Field < st.NumFields() {
+			name = st.Field(x.Field).Name()
+		}
+		return x.Cell.Comment + "." + name
+	}
+	return "?"
+}
+
+// storesToVar lists the stores into an option variable (in the function
+// that declares it and its closures).
+func (c *Ctx) storesToVar(k interface{}) []*ssa.Store {
+	switch x := k.(type) {
+	case *ssa.Alloc:
+		return c.cellStores(x)
+	case fieldVarKey:
+		var out []*ssa.Store
+		for _, f := range c.ModFns {
+			allInstrs(f, func(in ssa.Instruction) {
+				if st, ok := in.(*ssa.Store); ok {
+					if c.varKey(st.Addr) == k {
+						out = append(out, st)
+					}
+				}
+			})
+		}
+		return out
+	}
+	return nil
+}
+
 // cellsOfFlagValue: the option variables a registered pflag.Value writes.
-func (c *Ctx) cellsOfFlagValue(v ssa.Value, depth int) []*ssa.Alloc {
+func (c *Ctx) cellsOfFlagValue(v ssa.Value, depth int) []interface{} {
 	if depth > 4 {
 		return nil
 	}
@@ -33,10 +95,14 @@ func (c *Ctx) cellsOfFlagValue(v ssa.Value, depth int) []*ssa.Alloc {
 		return c.cellsOfFlagValue(x.X, depth+1)
 	case *ssa.ChangeType:
 		return c.cellsOfFlagValue(x.X, depth+1)
+	case *ssa.FieldAddr:
+		if k := c.varKey(x); k != nil {
+			return []interface{}{k}
+		}
 	case *ssa.Alloc:
 		et := x.Type().Underlying().(*types.Pointer).Elem()
 		if _, isStruct := et.Underlying().(*types.Struct); isStruct && x.Comment == "complit" {
-			var out []*ssa.Alloc
+			var out []interface{}
 			for _, r := range *x.Referrers() {
 				if fa, ok := r.(*ssa.FieldAddr); ok {
 					for _, st := range storesTo(fa) {
@@ -46,9 +112,9 @@ func (c *Ctx) cellsOfFlagValue(v ssa.Value, depth int) []*ssa.Alloc {
 			}
 			return out
 		}
-		return []*ssa.Alloc{x}
+		return []interface{}{x}
 	case *ssa.Call:
-		var out []*ssa.Alloc
+		var out []interface{}
 		for _, a := range x.Call.Args {
 			if _, ok := a.Type().Underlying().(*types.Pointer); ok {
 				out = append(out, c.cellsOfFlagValue(a, depth+1)...)
@@ -66,7 +132,7 @@ func ruleC14Families(c *Ctx) {
 		return
 	}
 	name := fnName(mainImpl)
-	families := map[*ssa.Alloc][]string{}
+	families := map[interface{}][]string{}
 	for _, r := range c.flagRegs() {
 		if r.Call.Parent() != mainImpl {
 			continue
@@ -92,7 +158,7 @@ func ruleC14Families(c *Ctx) {
 		}
 		n++
 		// which option variable receives the value?
-		var target *ssa.Alloc
+		var target interface{}
 		seen := map[ssa.Value]bool{}
 		var follow func(v ssa.Value, depth int)
 		follow = func(v ssa.Value, depth int) {
@@ -111,7 +177,7 @@ func ruleC14Families(c *Ctx) {
 						follow(x, depth+1)
 					}
 				case *ssa.Store:
-					if al, ok := x.Addr.(*ssa.Alloc); ok && x.Val == v {
+					if al := c.varKey(x.Addr); al != nil && x.Val == v {
 						if _, isFam := families[al]; isFam {
 							target = al
 						}
@@ -123,7 +189,7 @@ func ruleC14Families(c *Ctx) {
 				case *ssa.Call:
 					// value passed on: a parser (ParseFloat) or a Set method on the variable
 					for _, a := range x.Call.Args {
-						if al, ok := a.(*ssa.Alloc); ok {
+						if al := c.varKey(a); al != nil {
 							if _, isFam := families[al]; isFam {
 								target = al
 							}
@@ -162,9 +228,9 @@ func ruleC14Families(c *Ctx) {
 		}
 		if len(missing) == 0 {
 			c.hold("C14.families", key, call.Pos(), fmt.Sprintf("read only when none of %v was given on the command line", fam))
-			c.sample(map[string]interface{}{"key": key, "variable": target.Comment, "family": fam})
+			c.sample(map[string]interface{}{"key": key, "variable": varKeyName(target), "family": fam})
 		} else {
-			c.violate("C14.families", key, call.Pos(), name, fmt.Sprintf("gitconfig key %s is consulted although option(s) %v of the same family (%v, all writing variable %s) may have been given: the configuration would override the command line", key, missing, fam, target.Comment))
+			c.violate("C14.families", key, call.Pos(), name, fmt.Sprintf("gitconfig key %s is consulted although option(s) %v of the same family (%v, all writing variable %s) may have been given: the configuration would override the command line", key, missing, fam, varKeyName(target)))
 		}
 	})
 	if n < 4 {
@@ -179,7 +245,7 @@ func ruleC14Constants(c *Ctx) {
 	}
 	newTFV := c.fn("/sizes", "", "NewThresholdFlagValue")
 	want := map[string]float64{"verbose": 0, "no-verbose": 1, "critical": 30}
-	var thresholdCell *ssa.Alloc
+	var thresholdCell interface{}
 	for _, n := range []string{"verbose", "no-verbose", "critical"} {
 		r := regs[n]
 		if r == nil {
@@ -192,7 +258,7 @@ func ruleC14Constants(c *Ctx) {
 			continue
 		}
 		k, ok := constFloat(call.Call.Args[1])
-		cell, _ := call.Call.Args[0].(*ssa.Alloc)
+		cell := c.varKey(call.Call.Args[0])
 		if thresholdCell == nil {
 			thresholdCell = cell
 		}
@@ -212,7 +278,7 @@ func ruleC14Constants(c *Ctx) {
 	} else {
 		c.hold("C14.constants", "--threshold", r.Call.Pos(), "writes the shared threshold variable")
 		// default 1
-		for _, st := range storesTo(cells[0]) {
+		for _, st := range c.storesToVar(cells[0]) {
 			if k, ok := constFloat(st.Val); ok && st.Parent() == r.Call.Parent() {
 				if k == 1 {
 					c.hold("C14.constants", "default", st.Pos(), "default threshold 1")
@@ -696,25 +762,53 @@ func ruleC19Footnotes(c *Ctx) {
 		}
 		return hasNew && hasOld
 	}
+	// the returned text is computed from that number: fmt.Sprintf("[%d]", n),
+	// "[" + strconv.Itoa(n) + "]", a module helper given n, ...
+	var fromNumber func(v ssa.Value, depth int) bool
+	fromNumber = func(v ssa.Value, depth int) bool {
+		if depth > 8 {
+			return false
+		}
+		if isNumberPhi(v) {
+			return true
+		}
+		v = c.resolve(v)
+		if isNumberPhi(v) {
+			return true
+		}
+		switch x := v.(type) {
+		case *ssa.BinOp:
+			return fromNumber(x.X, depth+1) || fromNumber(x.Y, depth+1)
+		case *ssa.Convert:
+			return fromNumber(x.X, depth+1)
+		case *ssa.ChangeType:
+			return fromNumber(x.X, depth+1)
+		case *ssa.MakeInterface:
+			return fromNumber(x.X, depth+1)
+		case *ssa.Phi:
+			for _, e := range x.Edges {
+				if fromNumber(e, depth+1) {
+					return true
+				}
+			}
+		case *ssa.Call:
+			for _, a := range x.Call.Args {
+				if fromNumber(a, depth+1) {
+					return true
+				}
+				for _, el := range c.sliceElemValues(a) {
+					if el != nil && fromNumber(el, depth+1) {
+						return true
+					}
+				}
+			}
+		}
+		return false
+	}
 	for _, ret := range returnsOf(cc) {
 		for _, v := range c.resultValues(ret, 0) {
-			call, ok := c.resolve(v).(*ssa.Call)
-			if !ok {
-				continue
-			}
-			// fmt.Sprintf("[%d]", n) directly, or a module helper given n
-			if calleeQ(&call.Call) == "fmt.Sprintf" {
-				for _, el := range c.sliceElemValues(call.Call.Args[len(call.Call.Args)-1]) {
-					if mi, ok := el.(*ssa.MakeInterface); ok && isNumberPhi(mi.X) {
-						okCite = true
-					}
-				}
-			} else if cal := call.Call.StaticCallee(); cal != nil && c.inRuleScope(cal) {
-				for _, a := range call.Call.Args {
-					if isNumberPhi(a) {
-						okCite = true
-					}
-				}
+			if fromNumber(v, 0) {
+				okCite = true
 			}
 		}
 	}
